@@ -82,6 +82,46 @@ def cov_of(m):
     return ar_fam.variant(np.array(parse_flist(m['cov'])).reshape(2, 2), m.get('dtc'))
 
 
+def args_of(m):
+    """(a, cov) as the implementation receives them.  `mem` (round 2, L8) says how the OBJECTS share memory: coefficient
+    entries that are one buffer, a coefficient array that is a slice of a larger buffer, the covariance a view of `a`"""
+    mem = m.get('mem')
+    if not mem:
+        return a_of(m), (cov_of(m) if 'cov' in m else None)
+    import ar_fail
+    av = np.array(parse_flist(m['a'])).reshape(m['P'], 2, 2)
+    cv = np.array(parse_flist(m['cov'])).reshape(2, 2) if 'cov' in m else None
+    if mem == 'recip-one-buffer':
+        a = ar_fail.strided_recip(av)
+    elif mem == 'alleq-one-buffer':
+        a = ar_fail.strided_alleq(av)
+    elif mem in ('slice-of-buffer', 'cov-is-view-of-a'):
+        big = np.full((m['P'] + 3, 2, 2), 0.125)
+        big[1:1 + m['P']] = av
+        a = big[1:1 + m['P']]
+        if mem == 'cov-is-view-of-a' and cv is not None:
+            assert np.array_equal(av[0], cv)
+            return a, a[0]
+    elif mem == 'cov-offdiag-one-cell':          # Σ whose two off-diagonal entries are one memory cell
+        a = np.array(av, copy=True)
+        buf = np.array([cv[0, 0], cv[0, 1], cv[1, 1]])
+        cv2 = np.lib.stride_tricks.as_strided(buf, shape=(2, 2), strides=(8, 8))
+        assert np.array_equal(cv2, cv)
+        return a, cv2
+    else:
+        raise ValueError(mem)
+    return a, (None if cv is None else np.array(cv, copy=True))
+
+
+def roles_of(m):
+    """which of the four coefficient rows `np.r_[1, a[:,0,0]]`, `np.r_[0, a[:,0,1]]`, `np.r_[0, a[:,1,0]]`, `np.r_[1, a[:,1,1]]`
+    coincide bit for bit: each name is bound to the FIRST object evaluated from an equal row (what a memo keyed on the
+    coefficients would hand out)"""
+    av = np.array(parse_flist(m['a'])).reshape(m['P'], 2, 2)
+    rows = [np.r_[1, av[:, 0, 0]].tobytes(), np.r_[0, av[:, 0, 1]].tobytes(), np.r_[0, av[:, 1, 0]].tobytes(), np.r_[1, av[:, 1, 1]].tobytes()]
+    return ''.join(str(rows.index(r)) for r in rows)
+
+
 def tolf(m):
     return ar_fam.tol_factor(m.get('dt'), m.get('dtc'), m.get('dth'), m.get('dts'))
 
@@ -120,14 +160,13 @@ def run_impl(m):
             w, fx2y, fy2x, fxy, Sw = ar.granger_causality_xy(a_sw, Pm.dot(cov).dot(Pm), n_freqs=m['nf'])
             return 'ok %s %s %s %s' % (flist(np.real(fx2y)), flist(np.real(fy2x)), flist(np.real(fxy)), m2(Sw))
         return call(f)
-    if op in ('tf', 'sm', 'gc'):
-        a = a_of(m)
-        if op == 'tf':
+    if op in ('tf', 'tfs', 'sm', 'gc'):
+        a, cov = args_of(m)
+        if op in ('tf', 'tfs'):
             def f():
                 w, Hw = ar.transfer_function_xy(a, **nf_kw(m))
                 return 'ok %s %s' % (flist(w), m2(Hw))
             return call(f)
-        cov = cov_of(m)
         if op == 'sm':
             def f():
                 w, Hw = ar.transfer_function_xy(a, **nf_kw(m))
@@ -197,7 +236,12 @@ def run_anaseq(m):
         if k:
             G.set_input(inputs[k])
         for attr in st['reads']:
-            v = getattr(G, attr)
+            try:
+                v = getattr(G, attr)
+            except ValueError:          # order estimation did not converge for one of the pairs: the read is refused
+                if READ_TOK[attr] != 'Rm':
+                    toks.append('E')
+                continue
             if READ_TOK[attr] != 'Rm':
                 toks.append(flist(np.asarray(v).reshape(-1)))
     return 'ok ' + ' '.join(toks)
@@ -211,16 +255,21 @@ def line_of(m):
         for st in m['steps']:
             data = step_data(st)
             prs = []
-            for (i, j) in step_ij(m, st):          # fitting is C11: fresh fit_model results of THIS input
-                o, Rxx, co, ec = gr.fit_model(data[i], data[j], **fit_kw(m))
-                co = np.asarray(co)
-                prs.append('%d:%d:%d:%s:%s' % (i, j, co.shape[0], aflat(co), aflat(ec)))
+            try:
+                for (i, j) in step_ij(m, st):          # fitting is C11: fresh fit_model results of THIS input
+                    o, Rxx, co, ec = gr.fit_model(data[i], data[j], **fit_kw(m))
+                    co = np.asarray(co)
+                    prs.append('%d:%d:%d:%s:%s' % (i, j, co.shape[0], aflat(co), aflat(ec)))
+            except ValueError:                         # fitting THIS input raises for one of its pairs
+                prs = ['X']
             from common import f2x
             toks.append('S|%d|%s|%s' % (st['nproc'], f2x(st['Fs']), ';'.join(prs) or '-'))
             toks += [READ_TOK[a] for a in st['reads']]
         return 'C12 anaseq %d %s' % (m['nf'], ' '.join(toks))
     if op == 'tf':
         return 'C12 tf %d %d %s' % (m['nf'], m['P'], m['a'])
+    if op == 'tfs':
+        return 'C12 tfs %d %d %s %s' % (m['nf'], m['P'], m['a'], roles_of(m))
     if op in ('sm', 'gc', 'gcs'):
         return 'C12 %s %d %d %s %s' % (op, m['nf'], m['P'], m['a'], m['cov'])
     if op == 'afreq':
@@ -248,6 +297,10 @@ def cmp_groups(kinds, rtol=1e-9, atol=1e-300):
         if len(a) != len(b) or len(a) != len(kinds):
             return False
         for k, x, y in zip(kinds, a, b):
+            if 'E' in (x, y):          # a refused read
+                if x != y:
+                    return False
+                continue
             if k == 'c':
                 fl = lambda zs: [t for z in zs for t in (z.real, z.imag)]
                 if not close_vec(fl(parse_clist(x)), fl(parse_clist(y)), rtol, atol):
@@ -302,6 +355,8 @@ def judge_value(m, impl, clause):
     if not impl.startswith('ok'):
         return fail('raises', 'valid input rejected: ' + impl)
     g = impl.split()[1:]
+    if op == 'tfs':
+        op = 'tf'
     if op in ('tf', 'sm', 'gc'):
         a = np.array(parse_flist(m['a'])).reshape(m['P'], 2, 2)
         nb = m['nf'] // 2 + 1
@@ -391,11 +446,24 @@ def judge_value(m, impl, clause):
             data, n, nb = step_data(st), st['nproc'], m['nf'] // 2 + 1
             where = 'after %s' % ('construction' if k == 0 else 'set_input #%d (%s)' % (k, st['kind']))
             want = None
+            try:
+                for (i, j) in step_ij(m, st):
+                    gr.fit_model(data[i], data[j], **fit_kw(m))
+                refused = False
+            except ValueError:
+                refused = True
             for attr in st['reads']:
                 if READ_TOK[attr] == 'Rm':
                     continue
                 if n_out >= len(g):
                     return fail(tag + 'shape', 'missing output for %s %s' % (attr, where))
+                if attr != 'frequencies' and (g[n_out] == 'E') != refused:
+                    if refused:
+                        return fail(tag + 'no-raise', '%s %s: fit_model raises for a pair of the data the analyzer holds, but a result was reported' % (attr, where))
+                    return fail(tag + 'raises', '%s %s raised, but fit_model succeeds for every pair of the data the analyzer holds' % (attr, where))
+                if g[n_out] == 'E':
+                    n_out += 1
+                    continue
                 got = np.array(parse_flist(g[n_out]))
                 n_out += 1
                 if attr == 'frequencies':
@@ -487,9 +555,12 @@ def sequence_judge(m, clause):
         return Failure('%s/sequence/%s' % (clause, sym), '%s: call sequence on the same argument objects: %s [op %s]' % (clause, sym, op),
                        {'meta': m, 'clause': clause})
     syms = []
+    if op == 'tfs':
+        op = 'tf'
     if op in ('tf', 'sm', 'gc', 'gcs'):
-        a = a_of(m)
-        cov = cov_of(m) if 'cov' in m else np.array([[1.0, 0.3], [0.3, 0.8]])
+        a, cov = args_of(m)
+        if cov is None:
+            cov = np.array([[1.0, 0.3], [0.3, 0.8]])
         nf = m['nf']
         rt = {'tf': lambda: ar.transfer_function_xy(a, n_freqs=nf),
               'sm': lambda: ar.spectral_matrix_xy(ar.transfer_function_xy(a, n_freqs=nf)[1], cov),
@@ -501,8 +572,10 @@ def sequence_judge(m, clause):
                   'gc': ['gc', 'gc', 'tf', 'sm', 'gc', 'tf', 'idp', 'tf', 'sm', 'coh', 'gc'],
                   'gcs': ['idp', 'gc', 'tf', 'coh', 'gc', 'sm', 'tf', 'gc', 'tf', 'sm', 'idp']}
         syms = ar_seq.run_schedule(rt, orders[op], [a, cov])
-        if not syms:
+        if not syms and not m.get('mem'):
             syms = ar_seq.refill_check(lambda arr, k: ar.granger_causality_xy(arr, cov, n_freqs=k), a, a * 0.5, [nf, nf + 1])
+        if not syms and (m.get('mem') or m.get('struct') or m.get('l7')):
+            syms = failure_and_alias_judge(m, ar)
     elif op == 'ana':
         n, nf, order = m['nproc'], m['nf'], m['order']
         data = np.array(parse_flist(m['data'])).reshape(n, -1)
@@ -548,8 +621,103 @@ def sequence_judge(m, clause):
     return fail(syms[0]) if syms else None
 
 
+def failure_and_alias_judge(m, ar):
+    """round 2.  L7: refused / failing calls of every function entry point on the SAME argument objects (bad grids, wrong
+    shapes, `None`, a singular covariance), then the ordinary calls on those objects against fresh copies.  L8: a result
+    handed out must not be (a view of) an argument: after overwriting the arguments it still holds what it held"""
+    import ar_fail, ar_seq, copy
+    a, cov = args_of(m)
+    if cov is None:
+        cov = np.array([[1.0, 0.3], [0.3, 0.8]])
+    nf = m['nf']
+    args = [a, cov]
+
+    def ordinary(ar_):
+        aa, cc = ar_
+        w, H = ar.transfer_function_xy(aa, n_freqs=nf)
+        S = ar.spectral_matrix_xy(H, cc)
+        return [w, H, S, ar.coherence_from_spectral(S), ar.interdependence_xy(S), ar.granger_causality_xy(aa, cc, n_freqs=nf)]
+    zero_cov = np.zeros((2, 2))
+    bad = [('transfer/n_freqs-0', lambda: ar.transfer_function_xy(a, n_freqs=0)),
+           ('transfer/n_freqs-negative', lambda: ar.transfer_function_xy(a, n_freqs=-2)),
+           ('transfer/n_freqs-None', lambda: ar.transfer_function_xy(a, n_freqs=None)),
+           ('transfer/n_freqs-float', lambda: ar.transfer_function_xy(a, n_freqs=2.5)),
+           ('transfer/a-2d', lambda: ar.transfer_function_xy(a[0], n_freqs=nf)),
+           ('transfer/a-3x3', lambda: ar.transfer_function_xy(np.zeros((2, 3, 3))[:, :1, :1], n_freqs=nf)),
+           ('spectral/cov-None', lambda: ar.spectral_matrix_xy(ar.transfer_function_xy(a, n_freqs=nf)[1], None)),
+           ('spectral/cov-1d', lambda: ar.spectral_matrix_xy(ar.transfer_function_xy(a, n_freqs=nf)[1], cov[0])),
+           ('spectral/Hw-is-a', lambda: ar.spectral_matrix_xy(a, cov)),
+           ('granger/cov-None', lambda: ar.granger_causality_xy(a, None, n_freqs=nf)),
+           ('granger/cov-singular', lambda: ar.granger_causality_xy(a, zero_cov, n_freqs=nf)),
+           ('granger/cov-is-a', lambda: ar.granger_causality_xy(a, a, n_freqs=nf)),
+           ('granger/n_freqs-0', lambda: ar.granger_causality_xy(a, cov, n_freqs=0)),
+           ('granger/a-None', lambda: ar.granger_causality_xy(None, cov, n_freqs=nf)),
+           ('coherence/None', lambda: ar.coherence_from_spectral(None)),
+           ('interdependence/1d', lambda: ar.interdependence_xy(np.ones(3)))]
+    with np.errstate(all='ignore'):
+        syms = ['failure/' + t for t in ar_fail.after_failures(bad, args, ordinary)]
+        if syms:
+            return syms
+        res = ordinary(args)
+    snap = ar_seq.snapshot(res)
+    for arr in args:
+        if arr.flags.writeable:
+            arr[...] = 0.375
+    if ar_seq.mutated(snap):
+        return ['alias/result-is-a-view-of-an-argument']
+    return []
+
+
+def analyzer_failure_judge(m, clause):
+    """round 2 (L7), analyzer: a read that raises part-way (order estimation fails for a LATER pair) must leave the
+    analyzer as it was — only declared one-time attributes may have appeared in `vars()` — and after `set_input` every
+    result equals that of a fresh analyzer on the new input (bitwise)"""
+    import ar_fail, ar_seq, warnings
+    warnings.simplefilter('ignore')
+    _, gr, ts = mods()
+    mk_in = lambda st: ts.TimeSeries(ar_fam.variant(step_data(st), st.get('dt')), sampling_rate=st['Fs'])
+    ij = None if m['ij'] is None else [tuple(q) for q in m['ij']]
+    G = gr.GrangerAnalyzer(mk_in(m['steps'][0]), ij=ij, n_freqs=m['nf'], **fit_kw(m))
+    attrs = ['causality_xy', 'order', 'spectral_matrix', 'model_coef', 'frequencies']
+
+    def fail(sym, what):
+        return Failure('%s/%s' % (clause, sym), '%s: %s [op anaseq]' % (clause, what), {'meta': m, 'clause': clause})
+    for k, st in enumerate(m['steps']):
+        if k:
+            G.set_input(mk_in(st))
+        before = ar_fail.vars_snapshot(G)
+        raised = False
+        for attr in attrs[k % 2:] + attrs[:k % 2]:
+            try:
+                getattr(G, attr)
+            except ValueError:
+                raised = True
+                d = ar_fail.vars_delta(G, before)
+                if d:
+                    return fail('failure/' + d, 'after reading %s raised at step %d the analyzer holds %s' % (attr, k, sorted(set(vars(G)) - set(before))))
+        if not raised:
+            F = gr.GrangerAnalyzer(mk_in(st), ij=ij, n_freqs=m['nf'], **fit_kw(m))
+            for attr in ('order', 'autocov', 'model_coef', 'error_cov', 'causality_xy', 'causality_yx', 'simultaneous_causality', 'spectral_matrix', 'frequencies'):
+                if not ar_seq.same(_plain(getattr(F, attr)), _plain(getattr(G, attr))):
+                    return fail('failure/stale-after-failed-read', '%s after set_input #%d differs from a fresh analyzer on the same input '
+                                '(an earlier read on another input had raised)' % (attr, k))
+    return None
+
+
+def _plain(v):
+    """dicts keyed by numpy-integer pairs -> plain tuples, values as arrays"""
+    if isinstance(v, dict):
+        return {tuple(int(t) for t in k) if isinstance(k, tuple) else k: _plain(x) for k, x in v.items()}
+    if isinstance(v, (list, tuple)):
+        return [np.asarray(x) for x in v]
+    return np.asarray(v) if not isinstance(v, (int, float)) else v
+
+
 def judge(m, impl, clause):
-    return judge_value(m, impl, clause) or sequence_judge(m, clause)
+    f = judge_value(m, impl, clause) or sequence_judge(m, clause)
+    if f is None and m['op'] == 'anaseq' and m.get('fail'):
+        f = analyzer_failure_judge(m, clause)
+    return f
 
 
 # ------------------------------------------------------------------ cases
@@ -645,8 +813,131 @@ def cases(rng, tier, seed):
         m = {'op': 'anaseq', 'nf': int(nrng.choice([16, 33])), 'order': int(nrng.randint(1, 4)), 'ij': ij, 'steps': steps}
         kinds_of_reads = ''.join('f' if a == 'frequencies' else 'l' for st in steps for a in st['reads'] if READ_TOK[a] != 'Rm')
         out.append(mk_case(m, 'analyzer/retarget/' + '+'.join(st['kind'] for st in steps[1:]), cmp_groups(kinds_of_reads)))
+    for c in out[::9]:
+        if c.meta['op'] in ('tf', 'sm', 'gc'):
+            c.meta['l7'] = True            # these also go through the refused-call family (oracle side only)
     out += session3_cases(nrng, big)
+    out += round2_cases(nrng, big)
     out += rerun_cases(nrng, out, big)
+    return out
+
+
+# ------------------------------------------------------------------ round 2: structured / aliased inputs (L8), failure histories (L7)
+STRUCTS = ['reciprocal', 'eqdiag', 'reciprocal+eqdiag', 'alleq', 'identical-channels', 'zero-couplings', 'a0-symmetric']
+
+
+def structured_var(nrng, P, rho, struct):
+    """a stable model whose coefficient rows COINCIDE bit for bit in the way `struct` says"""
+    A = nrng.randn(P, 2, 2)
+    if struct in ('reciprocal', 'reciprocal+eqdiag', 'identical-channels'):
+        A[:, 1, 0] = A[:, 0, 1]
+    if struct in ('eqdiag', 'reciprocal+eqdiag', 'identical-channels'):
+        A[:, 1, 1] = A[:, 0, 0]
+    if struct == 'alleq':
+        A[:] = A[:, :1, :1]
+    if struct == 'zero-couplings':
+        A[:, 0, 1] = 0.0
+        A[:, 1, 0] = 0.0
+    if struct == 'a0-symmetric':            # a[0] is a symmetric positive definite matrix (it will serve as Σ as well)
+        L = nrng.randn(2, 2)
+        A[0] = L.dot(L.T) + 0.3 * np.eye(2)
+        A[0] = (A[0] + A[0].T) / 2
+    C = np.zeros((2 * P, 2 * P))
+    C[:2, :] = np.hstack(list(A))
+    if P > 1:
+        C[2:, :-2] = np.eye(2 * (P - 1))
+    r = np.abs(np.linalg.eigvals(C)).max() or 1.0
+    sc = rho / r
+    A = np.array([A[k] * sc ** (k + 1) for k in range(P)])          # one factor per lag: the structure survives
+    return A if struct == 'a0-symmetric' else -A
+
+
+def failing_then_good(nrng, nproc, N):
+    """recordings for which order estimation (BIC, max_order 3) converges for the FIRST pairs and fails for a later one
+    (a strongly autocorrelated last channel: the criterion never rises), and recordings for which it converges everywhere"""
+    from scipy.signal import lfilter
+    _, gr, _ = mods()
+    kw = {'order': None, 'max_order': 3}
+
+    def status(x, ij):
+        out = []
+        for (i, j) in ij:
+            try:
+                gr.fit_model(x[i], x[j], **kw)
+                out.append(True)
+            except ValueError:
+                out.append(False)
+        return out
+    ij = default_ij(nproc)
+    for _ in range(40):
+        bad = nrng.randn(nproc, N)
+        bad[-1] = lfilter(np.ones(8) / 8.0, [1.0, -0.9], nrng.randn(N + 100))[100:]
+        good = nrng.randn(nproc, int(nrng.choice([N, N + 32])))
+        sb, sg = status(bad, ij), status(good, ij)
+        if sb[0] and not all(sb) and all(sg):
+            return bad, good
+    return None, None
+
+
+def round2_cases(nrng, big):
+    out = []
+    reps = 1 if not big else 5
+    for rep in range(reps):
+        # --- L8: coefficient rows that coincide bit for bit; entries / arrays that share memory; Σ a view of `a`
+        for t, struct in enumerate(STRUCTS):
+            for mem in ([None, 'slice-of-buffer'] + {'reciprocal': ['recip-one-buffer'], 'reciprocal+eqdiag': ['recip-one-buffer'],
+                                                     'identical-channels': ['recip-one-buffer'], 'alleq': ['alleq-one-buffer', 'recip-one-buffer'],
+                                                     'zero-couplings': ['recip-one-buffer'], 'a0-symmetric': ['cov-is-view-of-a']}.get(struct, [])):
+                P = int(nrng.randint(1, 6))
+                a = structured_var(nrng, P, float(nrng.uniform(0.3, 0.85)), struct)
+                if struct == 'a0-symmetric':
+                    cov = np.array(a[0], copy=True)
+                elif struct == 'identical-channels':
+                    v, u = float(nrng.uniform(0.5, 2.0)), float(nrng.uniform(-0.4, 0.4))
+                    cov = np.array([[v, u], [u, v]])
+                else:
+                    cov = gen_cov(nrng, 'full')
+                nf = int(nrng.choice([2, 5, 8, 9, 16]))
+                par = 'odd' if nf % 2 else 'even'
+                base = {'P': P, 'nf': nf, 'a': aflat(a), 'zero': 'both' if struct == 'zero-couplings' else None, 'struct': struct}
+                if mem:
+                    base['mem'] = mem
+                tag = '%s/%s' % (struct, mem or 'values')
+                out.append(mk_case(dict(base, op='tf'), 'transfer/structured/' + tag, cmp_groups('fcccc')))
+                out.append(mk_case(dict(base, op='tfs'), 'transfer/structured-shared/' + tag, cmp_groups('fcccc')))
+                out.append(mk_case(dict(base, op='sm', cov=aflat(cov)), 'spectral/structured/' + tag, cmp_groups('ccccfl')))
+                out.append(mk_case(dict(base, op='gc', cov=aflat(cov)), 'granger/structured/' + tag, cmp_groups('lllcccc')))
+        # Σ whose off-diagonal entries are one memory cell, with an ordinary model
+        P = int(nrng.randint(1, 5))
+        a = stable_var(nrng, P, 0.7)
+        cov = gen_cov(nrng, 'full')
+        base = {'P': P, 'nf': 8, 'a': aflat(a), 'zero': None, 'mem': 'cov-offdiag-one-cell', 'cov': aflat(cov)}
+        out.append(mk_case(dict(base, op='sm'), 'spectral/structured/cov-offdiag-one-cell', cmp_groups('ccccfl')))
+        out.append(mk_case(dict(base, op='gc'), 'granger/structured/cov-offdiag-one-cell', cmp_groups('lllcccc')))
+        # --- L8: analyzers on recordings with IDENTICAL channels / rows that are views of one buffer (pairs (i, j) with equal
+        #     rows are singular: fit_model raises LinAlgError or returns garbage -> only distinct-valued pairs are requested)
+        x = sim_data(nrng, 3, 128)
+        x[2] = x[0]
+        m = {'op': 'ana', 'nproc': 3, 'nf': 8, 'order': 2, 'Fs': 1.0, 'ij': [[0, 1], [2, 1], [1, 0], [1, 2]], 'data': aflat(x)}
+        out.append(mk_case(m, 'analyzer/structured/identical-channels', cmp_groups('lll')))
+        # --- L7: one analyzer whose first read is REFUSED part-way (a later pair does not converge), then re-targeted
+        for t in range(2 if not big else 4):
+            nproc = 3 if t % 2 == 0 else 4
+            bad, good = failing_then_good(nrng, nproc, 128)
+            if bad is None:
+                continue
+            Fs = float(nrng.choice([1.0, 2.0]))
+            rd = [['causality_xy', 'frequencies', 'order'], ['model_coef', 'causality_yx', 'frequencies']][t % 2]
+            steps = [{'nproc': nproc, 'Fs': Fs, 'kind': 'construct', 'reads': rd, 'data': aflat(bad)},
+                     {'nproc': nproc, 'Fs': Fs * (1 + t % 2), 'kind': 'after-failed-fit', 'data': aflat(good),
+                      'reads': ['causality_xy', 'causality_yx', 'frequencies', 'simultaneous_causality']}]
+            if t % 2:
+                steps.append({'nproc': nproc, 'Fs': Fs, 'kind': 'failing-again', 'reads': ['causality_yx', 'frequencies'], 'data': aflat(bad * 2.0)})
+                steps.append({'nproc': nproc, 'Fs': Fs, 'kind': 'after-failed-fit', 'data': aflat(good[::-1].copy()),
+                              'reads': ['simultaneous_causality', 'causality_xy']})
+            m = {'op': 'anaseq', 'nf': 8, 'order': -1, 'maxo': 3, 'crit': 'bic', 'ij': None, 'steps': steps, 'fail': True}
+            kinds_of_reads = ''.join('f' if a_ == 'frequencies' else 'l' for st in steps for a_ in st['reads'] if READ_TOK[a_] != 'Rm')
+            out.append(mk_case(m, 'analyzer/retarget/' + '+'.join(st['kind'] for st in steps[1:]), cmp_groups(kinds_of_reads)))
     return out
 
 
